@@ -343,9 +343,12 @@ func (p *player) Bet(chips int64) error {
 	p.state.DidAction = "bet"
 	p.state.Acted = true
 
+	wager := p.state.Wager
+
 	p.pay(chips, true)
 
-	p.game.GetState().Status.PreviousRaiseSize = chips
+	// The size of the bet is what was actually paid (a bet larger than the stack is an all-in)
+	p.game.GetState().Status.PreviousRaiseSize = p.state.Wager - wager
 
 	p.game.UpdateLastAction(p.idx, "bet", chips)
 
